@@ -7,6 +7,7 @@
 //   C x1 x2 ..                 sat.new_clause                        -> r=<0|1>
 //   A x                        sat.assume(x)                         -> r=<0|1>
 //   O                          sat.pop()                             -> r=ok
+//   JQ                         semantic judge of the last new_eq on the current clause set (DPLL, any size); J <n>: truth table
 // Literals are 2 * variable + sign; a token @v.k stands for allows(v, k) and ~@v.k for its negation.
 // At root level every operation is followed by propagate() (its result is printed as p=), because the iteration order
 // of the unordered containers inside new_eq decides which clauses are simplified by root values at creation time; after
@@ -263,6 +264,60 @@ static std::string judge_ov(world &w, size_t max_vars)
   return "J ok models=" + std::to_string(n_models) + " ref=" + std::to_string(n_ref) + weak;
 }
 
+// Semantic judge of the LAST equality request on the clause set as it is now (any number of variables): for every tried choice
+// of one value for each of the two variables that the network allows, no model may give the returned literal a value other
+// than "the two choices coincide".
+static std::string judge_last_eq(world &w)
+{
+  if (w.eqs.empty())
+    return "J ok none";
+  const auto &q = w.eqs.back();
+  mini_sat ms(w.sat);
+  std::vector<std::pair<int, long>> dl, dr;
+  for (int k = 0; k < 64; ++k)
+  {
+    if (w.ov.assigns[q.l].count(&w.pool[k]))
+      dl.emplace_back(k, idx_of(w.ov.allows(q.l, w.pool[k])));
+    if (w.ov.assigns[q.r].count(&w.pool[k]))
+      dr.emplace_back(k, idx_of(w.ov.allows(q.r, w.pool[k])));
+  }
+  size_t tried = 0, consistent = 0;
+  for (const auto &[kl, xl] : dl)
+    for (const auto &[kr, xr] : dr)
+    {
+      if (tried >= 49)
+        break;
+      ++tried;
+      std::vector<long> as;
+      for (const auto &[k, x] : dl)
+        as.push_back(k == kl ? x : (x ^ 1));
+      for (const auto &[k, x] : dr)
+        as.push_back(k == kr ? x : (x ^ 1));
+      std::vector<signed char> m;
+      // assumptions are applied in order; a literal shared by the two variables may make them contradictory
+      bool contradictory = false;
+      std::map<long, bool> seen;
+      for (long x : as)
+      {
+        auto it = seen.find(x >> 1);
+        if (it != seen.end() && it->second != ((x & 1) != 0))
+          contradictory = true;
+        seen[x >> 1] = (x & 1) != 0;
+      }
+      if (contradictory || ms.solve(as, m) != 1)
+        continue;
+      ++consistent;
+      const bool same = kl == kr;
+      std::vector<long> bad = as;
+      bad.push_back(same ? (q.res ^ 1) : q.res);
+      if (ms.solve(bad, m) == 1)
+        return "J FAIL equality op=" + std::to_string(w.eqs.size() - 1) + " vars=" + std::to_string(q.l) + "," + std::to_string(q.r) + " lit=" + std::to_string(q.res) +
+               " lit_value=" + std::to_string(!same) + " same_value=" + std::to_string(same) + " choice=e" + std::to_string(q.l) + "=" + std::to_string(kl) + ",e" +
+               std::to_string(q.r) + "=" + std::to_string(kr);
+    }
+  return "J ok tried=" + std::to_string(tried) + " consistent=" + std::to_string(consistent);
+}
+
 static std::string observe(world &w)
 {
   std::ostringstream o;
@@ -349,6 +404,11 @@ int main()
       long x = idx_of(w->ov.new_eq(l, rr));
       w->eqs.push_back({l, rr, x});
       r = std::to_string(x);
+    }
+    else if (op == 'J' && tk[0] == "JQ")
+    {
+      std::cout << (w->sat.root_level() ? judge_last_eq(*w) : std::string("J ok not-at-root")) << "\n";
+      continue;
     }
     else if (op == 'J')
     {
